@@ -347,6 +347,11 @@ fn prepare(env: &Env, backend: &'static str) -> PathBuf {
     // unsnapshotted state the command will find
     std::fs::write(ws.join("a"), "a2-unsnapshotted\n").unwrap();
     std::fs::write(ws.join("n"), "new-untracked\n").unwrap();
+    // same content, newer mtime: the snapshot re-reads `b` and stores a blob that already
+    // exists and is referenced (an in-place rewrite of an existing object would be observable)
+    if let Ok(f) = std::fs::File::options().write(true).open(ws.join("b")) {
+        let _ = f.set_modified(std::time::SystemTime::now() - std::time::Duration::from_secs(5));
+    }
     dir
 }
 
